@@ -8,7 +8,7 @@ const [src, name, prop, demoCmd, needs] = process.argv.slice(2)
 const V = path.join(__dirname, '..')
 const dst = path.join(V, 'seeded', name)
 fs.mkdirSync(dst, { recursive: true })
-for (const f of fs.readdirSync(src)) if (/\.(diff|js|mjs|md|rs|txt)$/.test(f)) fs.copyFileSync(path.join(src, f), path.join(dst, f))
+for (const f of fs.readdirSync(src)) if (/\.(diff|js|mjs|md|rs|txt|sh)$/.test(f)) fs.copyFileSync(path.join(src, f), path.join(dst, f))
 const v = spawnSync('bash', [path.join(V, 'tools/verify_seed.sh'), dst, demoCmd], { encoding: 'utf8', maxBuffer: 1 << 26 })
 const verifyOut = (v.stdout || '') + (v.stderr || '')
 const confirmed = /RESULT confirmed/.test(verifyOut)
